@@ -111,7 +111,7 @@ CHECKS.update({
    note=E2_NOTE),
  "C06": dict(engine="E2 closed loop", level="fault_enumeration", ref="DESIGN.md §5 C06",
    technique="fault injection at harness-owned boundaries of a closed loop, enumerated single-fault placements + sampled/enumerated pairs, bounded-recovery monitor",
-   text="On five fixed small base schedules every placement of one fault (11 variants x 8 cycles x 3 shards; quick: complete on three schedules, strided on the others) plus pairs (quick: 200 sampled; thorough: every pair on the two relief schedules and 3000 sampled triples) is executed; after the perturbed phase the loop must return to the C03 converged state within the bound and stay there. The fault space of small configurations is finite, which makes enumeration the right level.",
+   text="On six fixed small base schedules every placement of one fault (11 variants x 8 cycles x 3 shards; quick: complete on four schedules, strided on the others) plus pairs (quick: 200 sampled; thorough: every pair on the three relief schedules and 3000 sampled triples) is executed; after the perturbed phase the loop must return to the C03 converged state within the bound and stay there. The fault space of small configurations is finite, which makes enumeration the right level.",
    note=E2_NOTE),
  "C19": dict(engine="E1 stub-cycle", level="exploration", ref="DESIGN.md §5 C19",
    technique="differential runtime monitoring: request traces of a replica run alone vs. next to a hostile replica (both orders), multi-cycle, real coordinator",
